@@ -79,7 +79,9 @@ def _run_session(rd, drv, dongle, case, out, session_index):
             if not case['peer_supports']:
                 # a peer without safelink may answer the negotiation frame with ordinary downlink traffic
                 for k in range(case.get('pre_queue', 0)):
-                    peer.queue.append(bytes([0x00, 0x41 + k, 0x0a]))
+                    kind = case.get('pre_kind', 'data')
+                    # ordinary data, or the null packet / a fragment that happens to start like the negotiation request
+                    peer.queue.append(bytes([0x00, 0x41 + k, 0x0a]) if kind == 'data' else b'\xff' if kind == 'null' else b'\xff\x05')
             for i in range(10):
                 frame = dongle.next_tx()
                 if frame != b'\xff\x05\x01':
@@ -229,7 +231,7 @@ def random_case(draw, _depth=0):
     n = draw(st.sampled_from([3, 8, 20, 40, 120])) if N == 100 else draw(st.integers(1, 14))
     steps = draw(st.lists(_step, min_size=1, max_size=n))
     case = {'N': N, 'nego': nego, 'peer_supports': supports, 'steps': steps, 'style': draw(st.integers(0, 3)),
-            'pre_queue': draw(st.sampled_from([0, 1, 2, 10]))}
+            'pre_queue': draw(st.sampled_from([0, 1, 2, 10])), 'pre_kind': draw(st.sampled_from(['data', 'data', 'null', 'prefix']))}
     if _depth == 0 and draw(st.sampled_from([False, False, True])):
         case['more_sessions'] = [draw(random_case(_depth=1))]
         case['steps'] = case['steps'][:12]
